@@ -312,7 +312,7 @@ func (e *engineA) simulateAndReplay(module, cfg string, num, depth int, seeds []
 			wg.Add(1)
 			go func(i int, sd int64) {
 				defer wg.Done()
-				b, err := c.Simulate(module, cfg, num, depth, sd, core.Timeout(20*time.Minute))
+				b, err := c.Simulate(module, cfg, num, depth, sd, core.Timeout(scaled(20*time.Minute)))
 				res[i] = out{b, err}
 			}(i, sd)
 		}
